@@ -51,7 +51,9 @@ def run_targets(items, jobs=None, budget=12, seed=0, progress=False):
     pending = [(m, t, [[]]) for m, t in items]
     ctx = mp.get_context('spawn')
     t0 = time.time()
-    with ProcessPoolExecutor(max_workers=jobs, mp_context=ctx) as ex:
+    # one fresh interpreter per work item: z3 keeps process-wide state (AST ids, name counters) and a quantified obligation that takes
+    # milliseconds in a fresh process was seen to take minutes - or end `unknown` - in a worker that had served another target before
+    with ProcessPoolExecutor(max_workers=jobs, mp_context=ctx, max_tasks_per_child=1) as ex:
         running = set()
         while pending or running:
             while pending and len(running) < jobs * 2:
